@@ -62,14 +62,22 @@ class Socket:
         try:
             if timeout != 0:
                 self.sock.settimeout(timeout)
-            data = self.sock.recv(256)
+            data = b""
+            while len(data) < 4:  # the length field is in bytes 2-3 of the header
+                data += self._recv_chunk()
             data_len = struct.unpack_from("<H", data, 2)[0]
             while len(data) - HEADER_SIZE < data_len:
-                data += self.sock.recv(256)
+                data += self._recv_chunk()
 
             return data
         except socket.error as err:
             raise CommError("socket connection broken") from err
+
+    def _recv_chunk(self):
+        chunk = self.sock.recv(256)
+        if not chunk:  # peer closed the connection before the frame was complete
+            raise CommError("socket connection broken.")
+        return chunk
 
     def close(self):
         self.sock.close()
